@@ -39,18 +39,19 @@ def leaf(kind, ids, rng=None, text_ws=False):
     if kind == "obj":
         return {"k": "obj", "s": ids.next("o")}
     if kind == "meta":
-        return {"k": "meta"}
+        return {"k": "meta", "sub": True} if ids.n % 3 == 0 else {"k": "meta"}
     if kind == "dep":
-        return {"k": "dep", "name": "d%d" % (ids.n % 3), "version": "1.%d" % (ids.n % 2)}
+        return {"k": "dep", "name": "d%d" % (ids.n % 3), "version": "1.%d" % (ids.n % 2), "sub": ids.n % 4 == 0, "version_object": ids.n % 5 == 0}
     raise ValueError(kind)
 
 
 def node_of_kind(kind, ids, rng, children=()):
     how = rng.choice(gen.HOWS) if rng.random() < 0.3 else "ctor"
+    sub = {"subclass": True} if rng.random() < 0.05 else {}
     if kind == "block":
-        return gen.TAG(rng.choice(BLOCKS), *children, ws=True, via_fn=False, attrs=_attrs(rng, ids), how=how)
+        return gen.TAG(rng.choice(BLOCKS), *children, ws=True, via_fn=False, attrs=_attrs(rng, ids), how=how, **sub)
     if kind == "inline":
-        return gen.TAG(rng.choice(INLINES), *children, ws=False, via_fn=False, attrs=_attrs(rng, ids), how=how)
+        return gen.TAG(rng.choice(INLINES), *children, ws=False, via_fn=False, attrs=_attrs(rng, ids), how=how, **sub)
     if kind == "void_inline":
         return gen.TAG(rng.choice(VOID_INLINE), ws=False, via_fn=False, attrs=_attrs(rng, ids))
     if kind == "void_block":
